@@ -174,9 +174,30 @@ theorem corePost_fresh {c : Cfg} {sb sc : HC} {init : List Str} {b : Str} {j' : 
       rw [this, hoc] at hs
       simp at hs
 
+theorem ensureV_of_dir (ks : List Str) (v : V) (h : isDirE (v ks) = true) : ensureV ks v = v := by
+  rcases List.eq_nil_or_concat ks with rfl | ⟨i, b, rfl⟩
+  · rfl
+  · rw [List.concat_eq_append] at h ⊢
+    rw [ensureV_snoc, if_pos h]
+
+theorem view_alloc {c : Cfg} {s : HC} (hc : Coherent c s) (n : Node) : view ({ s with heap := s.heap ++ [n] } : HC) = view s := by
+  funext q
+  simp only [view, res_alloc hc]
+  cases hr : res s q with
+  | none => rfl
+  | some m =>
+    have := hc.valid ⟨q, hr⟩
+    simp [entOf, nd_alloc, Nat.ne_of_lt this]
+
+theorem isDirE_view {s : HC} {q : List Str} {p : Nat} (h : res s q = some p) : isDirE (view s q) = true ↔ (s.nd p).type = .dir := by
+  rw [view_some h]
+  simp only [entOf]
+  cases (s.nd p).type <;> simp [isDirE]
+
 theorem ensurePar_spec {c : Cfg} (g : CfgGood c) : ∀ (f : Nat) (s : HC) (ks : List Str), KsOk c ks → Coherent c s →
     ∀ out, ensurePar c f (canon c.sep ks) s = out →
-      EnsPost c s out.1 ks ∧ (∀ j, out.2 = .ok j → res out.1 ks = some j) ∧ (ks.length ≤ f → out.2 ≠ .error .fuel) := by
+      EnsPost c s out.1 ks ∧ (∀ j, out.2 = .ok j → res out.1 ks = some j) ∧ (ks.length ≤ f → out.2 ≠ .error .fuel) ∧
+      (∀ j, out.2 = .ok j → view out.1 = ensureV ks (view s)) ∧ (ks.length ≤ f → ∃ j, out.2 = .ok j) := by
   intro f
   induction f with
   | zero =>
@@ -190,30 +211,44 @@ theorem ensurePar_spec {c : Cfg} (g : CfgGood c) : ∀ (f : Nat) (s : HC) (ks : 
       simp only [insertNode, raise_run] at hout
       subst hout
       exact ⟨EnsPost.alloc hc _ ks, fun j h => by simp at h⟩
+    have hmk0 : ∀ out, makeNodeWith c (insertNode c 0) .dir (canon c.sep ks) none s = out → ∀ j, out.2 ≠ .ok j := by
+      intro out hout j
+      rw [makeNodeWith_run] at hout
+      simp only [insertNode, raise_run] at hout
+      subst hout; simp
     cases hr : res s ks with
     | none =>
       rw [hr] at hout
-      refine ⟨(hmk out hout).1, (hmk out hout).2, fun hl => ?_⟩
-      have : ks = [] := List.length_eq_zero_iff.1 (Nat.le_zero.1 hl)
-      rw [this] at hr; simp at hr
+      have habs : ¬ ks.length ≤ 0 := fun hl => by
+        have : ks = [] := List.length_eq_zero_iff.1 (Nat.le_zero.1 hl)
+        rw [this] at hr; simp at hr
+      exact ⟨(hmk out hout).1, (hmk out hout).2, fun hl => absurd hl habs, fun j h => absurd h (hmk0 out hout j),
+        fun hl => absurd hl habs⟩
     | some p =>
       rw [hr] at hout
       simp only at hout
       by_cases hf : (s.nd p).type = .file
       · rw [if_pos hf] at hout
-        refine ⟨(hmk out hout).1, (hmk out hout).2, fun hl => ?_⟩
-        have : ks = [] := List.length_eq_zero_iff.1 (Nat.le_zero.1 hl)
-        rw [this] at hr; simp at hr; subst hr
-        rw [hc.root_type] at hf; simp at hf
+        have habs : ¬ ks.length ≤ 0 := fun hl => by
+          have : ks = [] := List.length_eq_zero_iff.1 (Nat.le_zero.1 hl)
+          rw [this] at hr; simp at hr; subst hr
+          rw [hc.root_type] at hf; simp at hf
+        exact ⟨(hmk out hout).1, (hmk out hout).2, fun hl => absurd hl habs, fun j h => absurd h (hmk0 out hout j),
+          fun hl => absurd hl habs⟩
       · rw [if_neg hf] at hout; subst hout
-        exact ⟨EnsPost.refl hc ks, fun j h => by cases h; exact hr, fun _ => by simp⟩
+        have hd : isDirE (view s ks) = true := (isDirE_view hr).2 (by cases ht : (s.nd p).type with
+          | file => exact absurd ht hf
+          | dir => rfl)
+        exact ⟨EnsPost.refl hc ks, fun j h => by cases h; exact hr, fun _ => by simp,
+          fun j _ => (ensureV_of_dir ks _ hd).symm, fun _ => ⟨p, rfl⟩⟩
   | succ f ih =>
     intro s ks hk hc out hout
     rw [ensurePar_run, getNode_canon g s hk] at hout
-    have hmk : ks ≠ [] → ∀ out, makeNodeWith c (insertNode c (f + 1)) .dir (canon c.sep ks) none s = out →
+    have hmk : ks ≠ [] → isDirE (view s ks) = false → ∀ out, makeNodeWith c (insertNode c (f + 1)) .dir (canon c.sep ks) none s = out →
         EnsPost c s out.1 ks ∧ (∀ j, out.2 = .ok j → res out.1 ks = some j) ∧
-          (ks.length ≤ f + 1 → out.2 ≠ .error .fuel) := by
-      intro hne out hout
+          (ks.length ≤ f + 1 → out.2 ≠ .error .fuel) ∧
+          (∀ j, out.2 = .ok j → view out.1 = ensureV ks (view s)) ∧ (ks.length ≤ f + 1 → ∃ j, out.2 = .ok j) := by
+      intro hne hnodir out hout
       obtain ⟨init, b, rfl⟩ : ∃ init b, ks = init ++ [b] := by
         rcases List.eq_nil_or_concat ks with e | ⟨i, b, e⟩
         · exact absurd e hne
@@ -247,22 +282,33 @@ theorem ensurePar_spec {c : Cfg} (g : CfgGood c) : ∀ (f : Nat) (s : HC) (ks : 
         have hsubd : Sub c sd s.heap.length := hsuba.frame (dpd.frameX (fun _ => False)) (fun _ _ h => h) dpd.idsub
         have hndd : sd.nd s.heap.length = nnode := by rw [dpd.frame _ (hsuba.unreach [] _ rfl)]; exact hnda
         have hlen_d : sd.heap.length = s.heap.length + 1 := by rw [dpd.len]; exact hlen_a
+        have hvd : view sd = rmV (init ++ [b]) (view s) := by
+          have := (insertPre_view g hk hne hca hsuba (fun o ho _ => by rw [hnda, hnoid] at ho; simp at ho)).2
+            (by rw [hnda, hnoid]; rfl)
+          rw [hpre] at this
+          funext q
+          rw [this q, view_alloc hc]
         -- the parent, recursively
-        obtain ⟨epb, hjb, hfb⟩ := ih sd init hk.left dpd.coh _ rfl
+        obtain ⟨epb, hjb, hfb, hvb, htb⟩ := ih sd init hk.left dpd.coh _ rfl
         cases hens : ensurePar c f (canon c.sep init) sd with
         | mk sb rb =>
-          rw [hens] at hout epb hjb hfb
-          simp only at epb hjb hfb
+          rw [hens] at hout epb hjb hfb hvb htb
+          simp only at epb hjb hfb hvb htb
           have ep_sb : EnsPost c s sb (init ++ [b]) :=
             ep_sd.step epb.coh epb.frameX (fun m hm => by rw [hlen_d] at hm; omega)
               (epb.keep.mono (List.prefix_append _ _)) epb.idsub
           cases rb with
           | error e =>
             simp only at hout; subst hout
-            exact ⟨ep_sb, fun j h => by simp at h, fun hl => by simpa using hfb (by simp at hl; omega)⟩
+            exact ⟨ep_sb, fun j h => by simp at h, fun hl => by simpa using hfb (by simp at hl; omega),
+              fun j h => by simp at h, fun hl => by obtain ⟨j, hj⟩ := htb (by simp at hl; omega); simp at hj⟩
           | ok j =>
             simp only at hout
             have hj : res sb init = some j := hjb j rfl
+            have hvb' : view sb = ensureV init (view sd) := hvb j rfl
+            have hjdir : (sb.nd j).type = .dir := by
+              rw [← isDirE_view hj, hvb']
+              exact ensureV_isDir init _ (view_root dpd.coh)
             have hndb : sb.nd s.heap.length = nnode := by
               rw [epb.frameX.nd s.heap.length (by rw [hlen_d]; omega) (hsubd.unreach [] _ rfl) (by rw [hlen_d]; omega)]
               exact hndd
@@ -282,41 +328,71 @@ theorem ensurePar_spec {c : Cfg} (g : CfgGood c) : ∀ (f : Nat) (s : HC) (ks : 
               (fun o ho _ => by rw [hndb, hnoid] at ho; simp at ho)
             cases htail : insertTail c s.heap.length b j sb with
             | mk sc rc =>
-              obtain ⟨cp, hsucc, hnf⟩ := hcore _ htail
-              simp only at cp hsucc hnf
+              obtain ⟨cp, hsucc, hnf, htot⟩ := hcore _ htail
+              simp only at cp hsucc hnf htot
+              have hrc : rc = .ok () := htot hjdir (Or.inl (by rw [hndb]; exact hnoid))
+              subst hrc
               obtain ⟨hin, hkeep, hids⟩ := corePost_fresh epb.coh (by rw [hndb]; exact hnch) (by rw [hndb]; exact hnoid) cp
               have ep_sc : EnsPost c s sc (init ++ [b]) :=
                 ep_sb.step cp.coh cp.frameX (fun m hm => by rw [hin m hm]; exact Nat.le_refl _) hkeep hids
               rw [htail] at hout
-              cases rc with
-              | error e => simp only at hout; subst hout; exact ⟨ep_sc, fun j h => by simp at h, fun _ => by simpa using hnf⟩
-              | ok u =>
-                simp only at hout
-                have hst := checkFull_state c s.heap.length sc
-                have hcnf := checkFull_ne_fuel c s.heap.length sc
-                cases hcf : checkFull c s.heap.length sc with
-                | mk sd' rd' =>
-                  rw [hcf] at hout hst hcnf
-                  simp only at hst hcnf
-                  subst hst
-                  cases rd' with
-                  | error e => simp only at hout; subst hout; exact ⟨ep_sc, fun j h => by simp at h, fun _ => by simpa using hcnf⟩
-                  | ok u' =>
-                    simp only at hout; subst hout
-                    exact ⟨ep_sc, fun j h => by cases h; exact (hsucc rfl).1, fun _ => by simp⟩
+              simp only at hout
+              obtain ⟨hat, hsubres, hresc⟩ := hsucc rfl
+              rw [checkFull_ok g cp.coh ⟨_, hat⟩] at hout
+              simp only at hout; subst hout
+              refine ⟨ep_sc, fun j h => by cases h; exact hat, fun _ => by simp, fun _ _ => ?_, fun _ => ⟨_, rfl⟩⟩
+              -- the view: a new id-less folder at init ++ [b] over the ensured parents
+              rw [ensureV_snoc, if_neg (by rw [hnodir]; simp), ← hvd, ← hvb']
+              funext q
+              have hent : ∀ m, entOf sc m = entOf sb m := fun m => by
+                simp only [entOf, cp.type_same, cp.oid_same]
+              simp only [view, hresc q, putV]
+              by_cases hp : (init ++ [b]) <+: q
+              · rw [if_pos hp]
+                obtain ⟨r, rfl⟩ := hp
+                rw [List.drop_left]
+                cases r with
+                | nil =>
+                  simp only [List.append_nil, resFrom, Option.map_some, if_true, entOf]
+                  rw [cp.type_same, cp.oid_same, hndb, ← hnn]
+                | cons k r' =>
+                  have hnone : resFrom sb s.heap.length (k :: r') = none := by
+                    simp [resFrom, hndb, hnch, dget]
+                  rw [hnone]
+                  have hne' : init ++ [b] ++ k :: r' ≠ init ++ [b] := by
+                    intro e; have := congrArg List.length e; simp at this
+                  rw [if_neg hne']
+                  symm
+                  simp only [Option.map_none]
+                  show view sb (init ++ [b] ++ k :: r') = none
+                  rw [hvb']
+                  apply ensureV_none
+                  · rw [hvd]; simp [rmV]
+                  · intro hpre; have := hpre.length_le; simp at this; omega
+              · rw [if_neg hp]
+                have hne' : q ≠ init ++ [b] := fun e => hp (e ▸ List.prefix_refl _)
+                rw [if_neg hne']
+                cases hr : res sb q with
+                | none => rfl
+                | some m => simp only [Option.map_some, hent]
     cases hr : res s ks with
     | none =>
       rw [hr] at hout
-      exact hmk (fun e => by rw [e] at hr; simp at hr) out hout
+      exact hmk (fun e => by rw [e] at hr; simp at hr) (by rw [view_none hr]; rfl) out hout
     | some p =>
       rw [hr] at hout
       simp only at hout
       by_cases hf : (s.nd p).type = .file
       · rw [if_pos hf] at hout
-        refine hmk (fun e => ?_) out hout
-        rw [e] at hr; simp at hr; subst hr
-        rw [hc.root_type] at hf; simp at hf
+        refine hmk (fun e => ?_) ?_ out hout
+        · rw [e] at hr; simp at hr; subst hr
+          rw [hc.root_type] at hf; simp at hf
+        · rw [view_some hr]; simp [entOf, hf, isDirE]
       · rw [if_neg hf] at hout; subst hout
-        exact ⟨EnsPost.refl hc ks, fun j h => by cases h; exact hr, fun _ => by simp⟩
+        have hd : isDirE (view s ks) = true := (isDirE_view hr).2 (by cases ht : (s.nd p).type with
+          | file => exact absurd ht hf
+          | dir => rfl)
+        exact ⟨EnsPost.refl hc ks, fun j h => by cases h; exact hr, fun _ => by simp,
+          fun j _ => (ensureV_of_dir ks _ hd).symm, fun _ => ⟨p, rfl⟩⟩
 
 end CS.HCache
